@@ -199,6 +199,14 @@ theorem reset_network_follows {α : Type} (C : Cls α) (B : Str) (s s' : St α) 
     s'.var.value = s.var.value ∧ resolve s'.var (some n) none = some s.var.value :=
   resetNetwork_follows C B s s' n h
 
+/-- `Config reset channel <network> <channel>`: afterwards the channel answers the network value
+when that one is set, the general value otherwise -/
+theorem reset_channel_follows {α : Type} (C : Cls α) (B : Str) (s s' : St α) (n c : Str)
+    (h : resetChannel C B s (some n) c = (s', .done)) :
+    ∃ nv, findKey n s'.var.nets = some nv ∧ s'.var.value = s.var.value ∧
+      resolve s'.var (some n) (some c) = some (if nv.wasSet then nv.value else s.var.value) :=
+  resetChannel_follows C B s s' n c h
+
 /-! ### the file always loads -/
 
 /-- the extracted `CONF_FILE_HEADER` consists of complete comment / blank lines -/
@@ -263,5 +271,29 @@ example : ["supybot".toList, ":net.x".toList, "#chan\\".toList] ≠ [] ∧
 swallows the separator -/
 theorem name_escape_counterexample :
     splitName (joinName ["a\\".toList, "b".toList]) = some ["a\\.b".toList] := by decide
+
+/-! ### the source constants the model implements by hand -/
+
+/-- The regular expressions, format strings, strip sets and arithmetic constants of
+`src/registry.py` / `utils.str.normalizeWhitespace` that the model implements as code are the ones
+the source has now (extracted on every run): a change to any of them breaks this obligation. -/
+theorem source_constants_ok :
+    Gen.Registry.encoding = "unicode_escape" ∧
+    Gen.Registry.slashEndRe = "\\\\*$" ∧
+    Gen.Registry.kvSplitRe = "(?<!\\\\): " ∧ Gen.Registry.kvMaxSplit = 1 ∧
+    Gen.Registry.lineRstrip = ['\r', '\n'] ∧ Gen.Registry.valueStrip = ['\r', '\n'] ∧
+    Gen.Registry.lineFormat = "%s: %s\n" ∧
+    Gen.Registry.nameSplitRe = "(?<!\\\\)\\." ∧
+    Gen.Registry.escapeReplace = [(".", "\\."), (":", "\\:")] ∧
+    Gen.Registry.unescapeReplace = [("\\.", "."), ("\\:", ":")] ∧
+    Gen.Registry.commaSplitRe = "\\s*,\\s*" ∧ Gen.Registry.commaSetSplitRe = "\\s*,\\s*" ∧
+    Gen.Registry.commaSetJoin = [',', ' '] ∧
+    Gen.Registry.toggleWord = "toggle".toList ∧
+    Gen.Registry.nwEdgeBlanks = [' ', '\n', '\t', '\r'] ∧ Gen.Registry.nwNewlineRe = "[\r\n]+" ∧
+    Gen.Registry.nwSplits = [['\t'], [' ']] ∧
+    Gen.Registry.wrapWidth = 76 ∧ Gen.Registry.wrapPrefixExtra = 2 ∧
+    Gen.Registry.needsQuotingSrc =
+      "any([x not in self._printable for x in s]) and s.strip() != s or (len(s) > 0 and s[0] == s[-1] and (s[0] in '\\'\"'))" := by
+  decide +kernel
 
 end C15
